@@ -1630,13 +1630,32 @@ class Engine:
             atoms |= f_.atoms()
         for a in sorted(atoms, key=repr):
             e = ctx.atom_e.get(a)
+            if e is not None and e.k == "call" and len(e.a) == 2 and any(path_matches(e.extra, w) for w in ("Ord::min", "cmp::min", "Ord::max", "cmp::max")) and depth < 2:
+                x, y = ctx.L(e.a[0]), ctx.L(e.a[1])
+                is_min = e.extra.endswith("min")
+                ok = True
+                for (v, o) in ((x, y), (y, x)):
+                    def subm(l, v=v):
+                        k = l.t.get(a, 0)
+                        if not k:
+                            return l
+                        t = dict(l.t)
+                        del t[a]
+                        return Lin(t, l.c) + v.scale(k)
+                    extra = [(o - v) if is_min else (v - o)]
+                    if not self.entails(ctx, [subm(f_) for f_ in facts] + extra, subm(g), depth + 1):
+                        ok = False
+                        break
+                if ok:
+                    return True
+                continue
             if e is None or e.k != "phi":
                 continue
             ent = ctx.f.phi(e.key())
             if not ent:
                 continue
             node, ops, preds = ent
-            if len(ops) > 4 or any(any(x.key() == e.key() for x in o.walk()) for o in ops):
+            if len(ops) > 16 or any(any(x.key() == e.key() for x in o.walk()) for o in ops):
                 continue
             ok = True
             for o, (p, lab) in zip(ops, preds):
